@@ -235,7 +235,12 @@ U1Reentrant == {[properties |-> [c |-> TrueS], unevaluatedProperties |-> EntryS]
                 [defs |-> [e |-> [types |-> <<"object", "integer">>, unevaluatedProperties |-> [ref |-> LocalRef(PtrDefs("e"))]]],
                  unevaluatedProperties |-> [ref |-> LocalRef(PtrDefs("e"))]],
                 [unevaluatedProperties |-> [anyOf |-> <<EntryS, StrS>>]]}
-U1Schemas(z) == U1Deep \cup U1Twice \cup U1Reentrant \cup {u @@ x : u \in UnevP, x \in U1Nest2} \cup {u @@ x : u \in UnevP, x \in IF K >= 2 THEN UNION {U1Inplace(0), Pairs(U1Inplace(0)), U1Nested(0), U1Child} ELSE UNION {U1Inplace(0), U1Nested(0), U1Child}}
+\* array keywords NEXT TO in-place applicators that evaluate properties (and the reverse in U2): what an applicator
+\* reports about properties does not depend on the schema also constraining items
+U1Mixed == {[items |-> IntS, allOf |-> <<PA>>], [items |-> IntS, anyOf |-> <<PA, PB>>], [items |-> IntS, defs |-> [x |-> PA], ref |-> LocalRef(PtrDefs("x"))],
+            [prefixItems |-> <<IntS>>, oneOf |-> <<PA>>], [contains |-> IntS, if |-> PA, then |-> PB], [items |-> FalseS, if |-> PA, else |-> PB],
+            [properties |-> [c |-> [items |-> IntS, if |-> PA, then |-> PB]]]}
+U1Schemas(z) == {u @@ x : u \in UnevP, x \in U1Mixed} \cup U1Deep \cup U1Twice \cup U1Reentrant \cup {u @@ x : u \in UnevP, x \in U1Nest2} \cup {u @@ x : u \in UnevP, x \in IF K >= 2 THEN UNION {U1Inplace(0), Pairs(U1Inplace(0)), U1Nested(0), U1Child} ELSE UNION {U1Inplace(0), U1Nested(0), U1Child}}
 U1Vals == {Obj(m) : m \in MapsOf({"a", "b", "c"}, {Num(R_1), Str("a")}, 0, 3)}
           \cup {Obj([a |-> Obj([b |-> Num(R_1), c |-> Num(R_1)]), b |-> Num(R_1)]), Num(R_1)}
           \cup {Obj([a |-> x]) : x \in {Obj([b |-> Num(R_1)]), Obj([b |-> Str("a")]), EmptyObj, Obj([c |-> Num(R_1)]), Obj([b |-> Num(R_1), c |-> Str("a")])}}
@@ -272,7 +277,10 @@ UnevI == {[unevaluatedItems |-> FalseS], [unevaluatedItems |-> StrS]}
 U2Nest2 == {InWrap(w1, InWrap(w2, e)) : w1 \in InWraps, w2 \in InWraps,
                                         e \in {[prefixItems |-> <<IntS>>], [contains |-> StrS], [items |-> IntS], [prefixItems |-> <<IntS>>, minItems |-> 2]}}
            \cup {[defs |-> [x |-> e], if |-> [ref |-> LocalRef(PtrDefs("x"))]] : e \in {[prefixItems |-> <<IntS>>], [contains |-> StrS], [prefixItems |-> <<TrueS>>]}}
-U2Schemas(z) == {u @@ x : u \in UnevI, x \in U2Nest2} \cup {u @@ x : u \in UnevI, x \in IF K >= 2 THEN UNION {U2Inplace(0), Pairs(U2Inplace(0)), U2Child, U2Mixed}
+U2MixedObj == {[properties |-> [a |-> IntS], allOf |-> <<[prefixItems |-> <<IntS>>]>>], [additionalProperties |-> FalseS, anyOf |-> <<[contains |-> StrS], [prefixItems |-> <<IntS>>]>>],
+               [required |-> <<"a">>, properties |-> [a |-> TrueS], if |-> [prefixItems |-> <<IntS>>], then |-> [contains |-> StrS]],
+               [propertyNames |-> FalseS, defs |-> [x |-> [prefixItems |-> <<IntS, IntS>>]], ref |-> LocalRef(PtrDefs("x"))]}
+U2Schemas(z) == {u @@ x : u \in UnevI, x \in U2MixedObj} \cup {u @@ x : u \in UnevI, x \in U2Nest2} \cup {u @@ x : u \in UnevI, x \in IF K >= 2 THEN UNION {U2Inplace(0), Pairs(U2Inplace(0)), U2Child, U2Mixed}
                                                        ELSE UNION {U2Inplace(0), U2Child, U2Mixed}}
 U2Vals == {Arr(e) : e \in SeqsOf({Num(R_1), Str("a")}, 0, 3)} \cup {Arr(<<Arr(<<Num(R_1), Num(R_1)>>), Num(R_1)>>), Num(R_1)}
           \cup {Arr(<<Arr(<<Num(R_1)>>), Num(R_3)>>), Arr(<<Arr(<<Num(R_1), Num(R_3)>>), Str("a")>>), Arr(<<Arr(<<Num(R_1)>>), Arr(<<Num(R_3)>>)>>),
